@@ -4,6 +4,8 @@
 package wal
 
 import (
+	etcdRaft "github.com/coreos/etcd/raft"
+	"github.com/coreos/etcd/raft/raftpb"
 	badger "github.com/dgraph-io/badger/v2"
 	uuid "github.com/satori/go.uuid"
 )
@@ -20,4 +22,20 @@ func verifIO(db *badger.DB, group uuid.UUID, op string, before bool) error {
 		return nil
 	}
 	return VerifIOHook(db, group, op, before)
+}
+
+// verifSaveOp names what a Save call carries: "save" for an empty one,
+// otherwise "save+entries", "+hardstate", "+snapshot" in that order.
+func verifSaveOp(hardState raftpb.HardState, entries []raftpb.Entry, snapshot raftpb.Snapshot) string {
+	op := "save"
+	if len(entries) > 0 {
+		op += "+entries"
+	}
+	if !etcdRaft.IsEmptyHardState(hardState) {
+		op += "+hardstate"
+	}
+	if !etcdRaft.IsEmptySnap(snapshot) {
+		op += "+snapshot"
+	}
+	return op
 }
